@@ -129,6 +129,11 @@ func (nd *ndArrayTypeC) Reshape(newShape []int) (data.NDArrayType, error) {
 	reshapeToSeries := (len(newShape) == 1) && (data.Maximum(nd.Shape()) == len(newShape))
 
 	if nd.Contiguous() || !reshapeToSeries {
+		if !nd.Contiguous() {
+			// the elements of a non-contiguous view are not adjacent in the buffer:
+			// gather them into a new array, as the Go-backed arrays do
+			return data.ArrayFromSliceArrayType(nd.Unroll(), newShape), nil
+		}
 		result.Start = nd.Start
 		result.Impl = nd.Impl
 		result.OriginalDims = newShape
